@@ -237,6 +237,11 @@ func init() {
 							ok = false
 							notes = append(notes, "the appended "+desc(al)+" is made outside the loop over the elements")
 						}
+					} else if _, isPhi := ov.(*ssa.Phi); isPhi {
+						// a decode target carried from one iteration to the next (replaced only when it was handed out): an
+						// element decodes into what an earlier element left behind
+						ok = false
+						notes = append(notes, "the appended "+desc(ov)+" may be an object that an earlier element was decoded into")
 					}
 				})
 				// the whole list is decoded: the loop over the raw elements is left only at its end or with an error - a nil
